@@ -443,6 +443,41 @@ def check_every_def_verified(idx: Index, rep: Report) -> None:
         r.fail(f.fq, Finding("C10.R7", f.fq, "definition-not-verified", f"an iteration of the loop over the definitions returns to the loop head without calling `{dname}.constr.verify`: " + " -> ".join(cfg.describe(skip)[-4:]) + " — the constraint of an absent optional is not run on the empty range, so a range / length variable it shares with another segment is never bound to () and the other segment can bind it to anything", f.loc))
 
 
+def check_no_early_exit(idx: Index, rep: Report) -> None:
+    """The verifier loops visit every definition / every element of a segment: leaving one of them with `break` or
+    `return` (instead of skipping one element with `continue`) leaves the remaining elements unverified."""
+    r = rep.rule("C10.R8", "no verification loop of irdl/operations.py is left early (break / return): every definition and every element of a variadic segment is checked", floor=4)
+    mi = idx.module(OPS)
+    for name in ("verify_variadic_attr_size", "verify_variadic_same_size", "verify_variadic_size", "irdl_op_verify_regions", "irdl_op_verify_arg_list"):
+        f = idx.try_func(OPS, name)
+        if f is None:
+            continue
+        fn = f.raw_node
+        for w in walk_local(fn):
+            if not isinstance(w, (ast.For, ast.While)):
+                continue
+            inst = f"{f.fq}:loop@{unparse(w.iter)[:30] if isinstance(w, ast.For) else 'while'}"
+            exits = []
+            stack = list(w.body)
+            while stack:
+                n_ = stack.pop()
+                if isinstance(n_, (ast.For, ast.While)):
+                    # a break inside a nested loop leaves only that loop; a return leaves everything
+                    exits.extend(x for x in ast.walk(n_) if isinstance(x, ast.Return))
+                    continue
+                if isinstance(n_, (ast.Break, ast.Return)):
+                    exits.append(n_)
+                    continue
+                if isinstance(n_, (ast.FunctionDef, ast.Lambda, ast.ClassDef)):
+                    continue
+                stack.extend(ast.iter_child_nodes(n_))
+            if exits:
+                e_ = exits[0]
+                r.fail(inst, Finding("C10.R8", f.fq, f"early-exit:{type(e_).__name__.lower()}", f"`{type(e_).__name__.lower()}` at line {e_.lineno} leaves the loop `{unparse(w).splitlines()[0][:70]}`: the elements after the one that triggered it are never verified (an element that needs no check must be skipped with `continue`)", f"{f.module.relpath}:{e_.lineno}"))
+            else:
+                r.ok(inst, None)
+
+
 def check(idx: Index, rep: Report, tier: str) -> str:
     rep.run(check_size_verifiers, idx, rep)
     rep.run(check_builder, idx, rep)
@@ -451,6 +486,7 @@ def check(idx: Index, rep: Report, tier: str) -> str:
     rep.run(check_accessor_counters, idx, rep)
     rep.run(check_var_binding, idx, rep)
     rep.run(check_every_def_verified, idx, rep)
+    rep.run(check_no_early_exit, idx, rep)
     return (
         "Sibling / derivation rules over xdsl/irdl/operations.py: both segment-size verifiers consume the verified length "
         "(count, kind, sign, sum), the builder records one consistent size per definition on every path, option and construct "
